@@ -97,7 +97,9 @@ def run(ctx):
     grid = 0
     names = list(CODECS)
     for codec, sample in CODECS.items():
-        for decl in ["none", "comment", "known", "both-agree", "both-conflict", "bom", "bom-comment-utf8", "bom-comment-other", "comment-wrong", "known-empty"]:
+        # after a BOM the text may itself begin with a character whose UTF-8 form starts with the bytes of the BOM (EF BB BF)
+        for decl, lead in [(d_, "") for d_ in ["none", "comment", "known", "both-agree", "both-conflict", "bom", "bom-comment-utf8", "bom-comment-other", "comment-wrong", "known-empty"]] + \
+                [("bom", l_) for l_ in ["\ufeff", "\uff21", "\ufffd", "\ufb01", "\uf8ff", "\ufeff\ufeff"]]:
             for as_str, corrupt in ((False, b""), (True, b""), (False, b" \xff\xfe tail"), (False, b" \xe3\x81"), (False, b" caf\xe9 ")):
                 other = names[(names.index(codec) + 3) % len(names)]
                 comment_codec = {"comment": codec, "both-agree": codec, "both-conflict": codec, "bom-comment-utf8": "utf-8",
@@ -105,7 +107,7 @@ def run(ctx):
                 known = {"known": codec, "both-agree": codec, "both-conflict": other, "known-empty": ""}.get(decl)
                 bom = decl.startswith("bom")
                 real = "utf-8" if bom else codec
-                text = ("## -*- coding: %s -*-\n" % comment_codec if comment_codec else "") + sample + "\n"
+                text = ("## -*- coding: %s -*-\n" % comment_codec if comment_codec else "") + lead + sample + "\n"
                 if decl == "none" or decl == "known-empty":
                     real = "utf-8"
                 try:
@@ -114,7 +116,7 @@ def run(ctx):
                     continue
                 grid += 1
                 ctx.evaluations += 1
-                ctx.nontrivial.add((codec, decl, as_str, corrupt))
+                ctx.nontrivial.add((codec, decl, lead, as_str, corrupt))
                 lx = Lexer("", input_encoding=known)
                 try:
                     e, t = lx.decode_raw_stream(data, True, known, "f")
